@@ -335,15 +335,106 @@ def fromVec {α : Type} (L : LeafCodec α) (reg : List Entry) (maxMsg : Nat) (bs
         | none => .error .decode
         | some (v, rest) => if rest.isEmpty then .ok (.msg i v) else .error .trailing
 
-/-- the typed `DeBolt::from_vec` of one struct (`UnexpectedType`, no length check) -/
-def fromVecTyped {α : Type} (L : LeafCodec α) (e : Entry) (bs : Bytes) : Option (Val α) :=
+inductive TypedRes (α : Type)
+  | ok (v : Val α)
+  | err
+  | panic
+deriving DecidableEq, Repr
+
+/-- the typed `DeBolt::from_vec` generated by `#[derive(SerBolt)]` (no length check).  With trailing
+    bytes the generated code evaluates `cursor.position() as usize - ser.len()` for the error value:
+    `position < len`, so the subtraction underflows — a panic in builds with overflow checks. -/
+def fromVecTyped {α : Type} (L : LeafCodec α) (e : Entry) (bs : Bytes) : TypedRes α :=
+  match splitAt? 2 bs with
+  | none => .err
+  | some (a, body) =>
+    if beVal a ≠ e.id then .err else
+    match dec L e.ty body with
+    | none => .err
+    | some (v, rest) => if rest.isEmpty then .ok v else .panic
+
+/-! ### length-framed stream (`msgs::write`, `write_vec`, `read`, `read_message`, `read_raw`) -/
+
+/-- `write_vec` / `write`: u32 BE length (`buf.len() as u32`) + bytes -/
+def writeVec (bs : Bytes) : Bytes := beBytes 4 bs.length ++ bs
+
+/-- `msgs::read`: u32 length, then `from_reader` over a `Take` of that length.  If the stream holds at
+    least `n` bytes the `Take` shows exactly the first `n`, which is `from_vec` of that slice; if it is
+    shorter the decode either hits EOF or ends with `limit > 0`. Bytes after the frame stay unread. -/
+def readFrame {α : Type} (L : LeafCodec α) (reg : List Entry) (maxMsg : Nat) (bs : Bytes) :
+    Except WireErr (Decoded α) :=
+  match splitAt? 4 bs with
+  | none => .error .decode
+  | some (a, r) =>
+    let n := beVal a
+    if n < 2 then .error .shortRead
+    else if n > maxMsg then .error .tooLarge
+    else if n ≤ r.length then fromVec L reg maxMsg (r.take n)
+    else
+      match splitAt? 2 r with
+      | none => .error .decode
+      | some (t, body) =>
+        match dispatch reg (beVal t) with
+        | none => .error .trailing
+        | some i =>
+          match reg[i]? with
+          | none => .error .decode
+          | some e =>
+            match dec L e.ty body with
+            | none => .error .decode
+            | some _ => .error .trailing
+
+/-- `msgs::read_message::<T>`: length check, `UnexpectedType`, decode, `TrailingBytes` (no underflow here) -/
+def readMessageTyped {α : Type} (L : LeafCodec α) (maxMsg : Nat) (e : Entry) (bs : Bytes) : Option (Val α) :=
+  match splitAt? 4 bs with
+  | none => none
+  | some (a, r) =>
+    let n := beVal a
+    if n < 2 ∨ n > maxMsg ∨ r.length < n then none else
+    match splitAt? 2 (r.take n) with
+    | none => none
+    | some (t, body) =>
+      if beVal t ≠ e.id then none else
+      match dec L e.ty body with
+      | some (v, []) => some v
+      | _ => none
+
+/-- `read_raw`: u32 length + `read_exact` (no length check) -/
+def readRaw (bs : Bytes) : Option Bytes :=
+  match splitAt? 4 bs with
+  | none => none
+  | some (a, r) => (splitAt? (beVal a) r).map (·.1)
+
+/-! ### serial headers (`write_serial_request_header` … `read_serial_response_header`) -/
+
+def writeSerialRequest (seq : Nat) (peer : Bytes) (dbid : Nat) : Bytes :=
+  beBytes 2 0xaa55 ++ beBytes 2 seq ++ peer ++ beBytes 8 dbid
+
+def readSerialRequest (bs : Bytes) : Option (Nat × Bytes × Nat) :=
   match splitAt? 2 bs with
   | none => none
-  | some (a, body) =>
-    if beVal a ≠ e.id then none else
-    match dec L e.ty body with
-    | some (v, []) => some v
-    | _ => none
+  | some (m, r) =>
+    if beVal m ≠ 0xaa55 then none else
+    match splitAt? 2 r with
+    | none => none
+    | some (s, r) =>
+      match splitAt? 33 r with
+      | none => none
+      | some (p, r) =>
+        match splitAt? 8 r with
+        | none => none
+        | some (d, _) => some (beVal s, p, beVal d)
+
+def writeSerialResponse (seq : Nat) : Bytes := beBytes 2 0x5aa5 ++ beBytes 2 seq
+
+def readSerialResponse (bs : Bytes) (expected : Nat) : Bool :=
+  match splitAt? 2 bs with
+  | none => false
+  | some (m, r) =>
+    if beVal m ≠ 0x5aa5 then false else
+    match splitAt? 2 r with
+    | none => false
+    | some (s, _) => beVal s == expected
 
 /-! ### StreamedPSBT (structured model of `vls-protocol/src/psbt.rs`)
 
@@ -390,10 +481,21 @@ def isWitnessProgram (s : Bytes) : Bool :=
     (0x02 ≤ p && p ≤ 0x28) && s.length == p.toNat + 2
   | _ => false
 
-/-- one loop iteration: the summarised input and its segwit flag, `none` = "missing utxo" -/
+/-- rust-bitcoin `Script::is_p2pkh`: exactly 25 bytes `76 a9 14 <20 bytes> 88 ac` -/
+def isP2pkh (s : Bytes) : Bool :=
+  s.length == 25 && s[0]? == some 0x76 && s[1]? == some 0xa9 && s[2]? == some 0x14 &&
+  s[23]? == some 0x88 && s[24]? == some 0xac
+
+/-- one loop iteration: the summarised input and its segwit flag, `none` = refused ("missing utxo",
+    "legacy input needs non_witness_utxo").  Without the previous transaction a `witness_utxo` is taken
+    on faith, which is refused for a legacy p2pkh output (fix 2061d20): its value cannot be verified
+    and a legacy signature does not commit to it. -/
 def stepInput (ti : TxIn) (pi : PInput) : Option (PInput × Bool) :=
   match pi.nonWitnessUtxo with
-  | none => some (pi, false)
+  | none =>
+    match pi.witnessUtxo with
+    | some w => if isP2pkh w.script then none else some (pi, false)
+    | none => some (pi, false)
   | some ptx =>
     if ptx.txid ≠ ti.prevTxid then none else
     match ptx.outputs[ti.vout]? with
